@@ -21,7 +21,7 @@ RULE = ("case = (generated program) x source option {file, -c, -e, -m (generated
         "set; distinct = sha1(case)+interpreter")
 ASSUMPTIONS = ["rich is not installed on the target interpreters: only the plain-print fallback console is exercised",
                "the harness applies the documented transformation of each source option (-c: \\\\n -> newline; -e: eval with linesep) to obtain the program text"]
-REQUIRED_CLASSES = ["how_file", "how_c", "how_e", "how_m", "flag_--json", "flag_--dis", "flag_--dis-after", "flag_--no-normalize",
+REQUIRED_CLASSES = ["attached_option_value", "e_style_2", "how_file", "how_c", "how_e", "how_m", "flag_--json", "flag_--dis", "flag_--dis-after", "flag_--no-normalize",
                     "flag_--source", "invalid_sets", "subprocess_runs"]
 FLAGS = ["--dis", "--dis-after", "--source", "--no-normalize", "--json"]
 SOURCES = ["file", "c", "e", "m"]
@@ -49,7 +49,8 @@ def cli_cases(draw, max_size=12):
     prog = draw(gen_source.grammar_programs(max_size=max_size))
     flags = draw(st.lists(st.sampled_from(FLAGS), unique=True, max_size=5))
     return {"src": prog["src"], "how": draw(st.sampled_from(SOURCES)), "flags": sorted(flags), "min_version": prog.get("min_version", 7),
-            "subprocess": draw(st.integers(0, 9)) == 0, "_label": "cli_valid"}
+            "subprocess": draw(st.integers(0, 9)) == 0, "attached": draw(st.integers(0, 4)) == 0, "e_style": draw(st.integers(0, 2)),
+            "_label": "cli_valid"}
 
 
 def strategy(tier):
@@ -66,6 +67,12 @@ def fixed_cases(tier):
             for fl in ([], ["--json"], ["--no-normalize"], ["--json", "--no-normalize"], ["--dis", "--dis-after"], FLAGS,
                        ["--dis", "--dis-after", "--no-normalize"], ["--source"]):
                 out.append({"src": s, "how": how, "flags": sorted(fl), "min_version": 7, "subprocess": False, "_label": "cli_fixed"})
+    for how in ("c", "e", "m"):
+        for style in (0, 1, 2):
+            out.append({"src": "x = 1\ny = x\n", "how": how, "flags": [], "min_version": 7, "subprocess": False, "attached": True,
+                        "e_style": style, "_label": "cli_fixed"})
+            out.append({"src": "x = 1\ny = x\n", "how": how, "flags": ["--json"], "min_version": 7, "subprocess": False, "attached": False,
+                        "e_style": style, "_label": "cli_fixed"})
     out.append({"src": "x = 1\n", "how": "file", "flags": ["--json"], "min_version": 7, "subprocess": True, "_label": "cli_fixed"})
     out.append({"src": "x = 1\n", "how": "m", "flags": [], "min_version": 7, "subprocess": True, "_label": "cli_fixed"})
     for n in (0, 2, 3, 4):
